@@ -31,6 +31,7 @@ Definition atomic_create : bool := false.
 Definition locked_ops : bool := false.
 Definition facts : config := mkConfig atomic_create locked_ops.
 Definition anchors : list (string * string * nat) := [].
+Definition closed_tested_before_pop : bool := false.
 Definition translation_failed := true.
 """
 
@@ -265,6 +266,7 @@ Definition locked_ops : bool := %s.
 Definition facts : config := mkConfig atomic_create locked_ops.
 (* source anchors of the model events (function, event, line) -- informational, used by the scheduler *)
 Definition anchors : list (string * string * nat) := %s.
+Definition closed_tested_before_pop : bool := true.
 Definition translation_failed := false.
 """ % (SRC, cq_bool(a["atomic_create"]), cq_bool(a["locked_ops"]), cq_list(rows))
     return text, [a["path"]]
